@@ -50,6 +50,7 @@ def setup(ctx):
     ctx.require("monitor", "sequence_requests", 50)
     ctx.require("monitor", "churn_requests", 14)
     ctx.require("monitor", "lookalike_media_types", 20)
+    ctx.require("monitor", "lookalike_tokens", 40)
     ctx.require("monitor", "refused_by_middleware", 30)
 
 
@@ -143,6 +144,9 @@ PATHS = [
 ]
 
 TOKENS = [(None, "none"), ("good", "valid"), ("bad", "wrong"), ("", "empty"), (" good", "whitespace"), ("good;token=bad", "duplicated-good-first"), ("bad;token=good", "duplicated-bad-first")]
+# tokens that resemble a configured one without being it (used by the look-alike section of run())
+LOOKALIKE_TOKENS = [("good\u00e9", "non-ascii-suffix"), ("\u00fcgood", "non-ascii-prefix"), ("go\u200bod", "zero-width-inside"), ("\uff47\uff4f\uff4f\uff44", "fullwidth"), ("GOOD", "other-case"),
+                    ("goo", "proper-prefix"), ("goodx", "longer"), ("good ", "trailing-blank")]
 
 
 def make_request(path, size, mime, token, content):
@@ -626,6 +630,18 @@ def run(ctx):
                     continue
                 ctx.count("monitor", "lookalike_media_types")
                 run_one(ctx, rng, cfg, pspec, 9, mime, ("good", "valid"))
+    # ---- and tokens that merely resemble a configured one
+    for cfg in configs:
+        if not cfg["tokens"] or "good" not in cfg["tokens"]:
+            continue
+        for pspec in (PATHS[0], PATHS[1]):
+            for tok in LOOKALIKE_TOKENS:
+                for size in (0, 9):
+                    k += 1
+                    if not ctx.mine(k):
+                        continue
+                    ctx.count("monitor", "lookalike_tokens")
+                    run_one(ctx, rng, cfg, pspec, size, "text/plain", tok)
     # ---- faults: every call index of the storing sequence, for storing / replacing / deleting
     cfg = configs[1]
     fault_targets = [PATHS[0], PATHS[1], PATHS[2], PATHS[4], PATHS[20], PATHS[22]]
